@@ -5,6 +5,7 @@ package tor
 // valid torrents (every truncation, deletion, substitution), magnet links.
 
 import (
+	"errors"
 	"bytes"
 	"crypto/sha1"
 	"encoding/base32"
@@ -54,6 +55,24 @@ func geometry(t *Torrent) string {
 	}
 	if t.Name == "" {
 		return "empty name"
+	}
+	if np > 0 && np < 1<<21 {
+		// the pieces tile the torrent: full pieces, then one of 1..ps bytes
+		var sum int64
+		for i := int64(0); i < np; i++ {
+			pl := int64(t.Pieces.PieceLength(uint32(i)))
+			want := ps
+			if i == np-1 {
+				want = length - (np-1)*ps
+			}
+			if pl != want {
+				return fmt.Sprintf("piece %d of %d has length %d, expected %d", i, np, pl, want)
+			}
+			sum += pl
+		}
+		if sum != length {
+			return fmt.Sprintf("piece lengths sum to %d, total length is %d", sum, length)
+		}
 	}
 	if t.Files != nil {
 		var off int64
@@ -187,6 +206,31 @@ func (h *c13) judge(input []byte, class string) {
 		h.res.Violate("C13/roundtrip-webseeds", fmt.Sprintf("the served .torrent has web seeds %q, the torrent has %q  [%s]", b, a, class), rp)
 	}
 	h.nontriv[fmt.Sprintf("ok/%s/%d/%d/%d/%s/%s", class, t.Pieces.Num(), len(t.Files), t.Pieces.PieceSize(), trackerTiers(t), webseedList2(t))] = true
+}
+
+// failingWriter accepts failAt bytes and then fails (or, with short, reports a
+// short write without an error once, then fails).
+type failingWriter struct {
+	failAt int
+	short  bool
+	n      int
+}
+
+func (w *failingWriter) Write(p []byte) (int, error) {
+	room := w.failAt - w.n
+	if room >= len(p) {
+		w.n += len(p)
+		return len(p), nil
+	}
+	if room < 0 {
+		room = 0
+	}
+	w.n += room
+	if w.short {
+		w.short = false
+		return room, nil
+	}
+	return room, errors.New("scripted: client went away")
 }
 
 func trunc200(b []byte) []byte {
@@ -352,6 +396,70 @@ func TestVerifC13(t *testing.T) {
 							}
 						}
 					}
+				}
+			}
+		}
+	}
+	// torrents around and beyond 4 GiB with piece lengths that are and are not powers of two
+	for _, pl := range []int64{49152, 1 << 20, 1<<20 + 16384, 3 << 20, 1 << 24} {
+		if !mine() {
+			continue
+		}
+		for _, base := range []int64{1<<32 - 1, 1 << 32, 1<<32 + 1, 1<<32 + pl - 1, 1<<32 + pl, 1<<32 + pl + 1, 5<<30 + 7, 1<<33 + 12345, 3 * pl, 3*pl + 1} {
+			n := int((base + pl - 1) / pl)
+			if n > 120000 {
+				continue
+			}
+			info := dict(kv{"length", base}, kv{"name", "big"}, kv{"piece length", pl}, kv{"pieces", hashes(n)})
+			h.judge(rc.Bencode(dict(kv{"announce", "http://t.example/a"}, kv{"info", info})), "large")
+			// the same bytes as two files
+			info2 := dict(kv{"files", []rc.Value{fileEntry(base-pl-1, plist("a"), nil, nil), fileEntry(pl+1, plist("b"), nil, nil)}}, kv{"name", "big2"}, kv{"piece length", pl}, kv{"pieces", hashes(n)})
+			h.judge(rc.Bencode(dict(kv{"info", info2})), "large")
+		}
+	}
+	// histories of WriteTorrent calls: a write that fails (the client went away) after k
+	// bytes must not leak into what is served next, for another torrent or the same
+	if mine() {
+		mk := func(name string, trackers rc.Value) (*Torrent, []byte) {
+			info := dict(kv{"length", 65636}, kv{"name", name}, kv{"piece length", 32768}, kv{"pieces", hashes(3)})
+			raw := rc.Bencode(dict(kv{"announce-list", trackers}, kv{"info", info}))
+			t, err := ReadTorrent("", bytes.NewReader(raw))
+			if err != nil {
+				panic(err)
+			}
+			return t, raw
+		}
+		ta, _ := mk("first", []rc.Value{plist("http://a/1")})
+		tb, _ := mk("second-torrent-with-a-longer-name", []rc.Value{plist("udp://b:1", "http://c/2")})
+		var ref bytes.Buffer
+		WriteTorrent(&ref, ta)
+		full := ref.Len()
+		for _, failAt := range []int{0, 1, 17, full / 2, full - 1} {
+			for _, short := range []bool{false, true} {
+				for _, order := range [][2]*Torrent{{ta, tb}, {ta, ta}, {tb, ta}} {
+					h.res.Add("evaluations", 1)
+					fw := &failingWriter{failAt: failAt, short: short}
+					func() {
+						defer func() { recover() }()
+						WriteTorrent(fw, order[0])
+					}()
+					var out bytes.Buffer
+					var pan any
+					var err error
+					func() {
+						defer func() { pan = recover() }()
+						err = WriteTorrent(&out, order[1])
+					}()
+					rp := map[string]any{"kind": "write-history", "fail_at": failAt, "short": short}
+					if pan != nil || err != nil {
+						h.res.Violate("C13/write-after-failed-write", fmt.Sprintf("after a write that failed at byte %d, the next WriteTorrent failed: %v %v", failAt, pan, err), rp)
+						continue
+					}
+					t2, err := ReadTorrent("", bytes.NewReader(out.Bytes()))
+					if err != nil || !bytes.Equal(t2.Hash, order[1].Hash) || trackerTiers(t2) != trackerTiers(order[1]) {
+						h.res.Violate("C13/write-after-failed-write", fmt.Sprintf("after a write of another .torrent failed at byte %d (short write: %v), the .torrent served next does not decode to its own torrent (%v): what is left of the failed write leaks into it", failAt, short, err), rp)
+					}
+					h.nontriv[fmt.Sprintf("wh/%d/%v", failAt, short)] = true
 				}
 			}
 		}
